@@ -586,8 +586,8 @@ UNITS.append(Unit("C12", "jsonargparse._cli:_add_subcommands", asc12_setup, asc1
                   trusted=["_add_component_to_parser and the recursive call by contract", "add_subcommands / add_subcommand by contract"]))
 
 
-from contracts.signature_units import add_class_arguments_unit  # noqa: E402
-UNITS.append(add_class_arguments_unit("C12"))
+from contracts.signature_units import add_class_arguments_unit, add_function_arguments_unit, add_method_arguments_unit  # noqa: E402
+UNITS += [add_class_arguments_unit("C12"), add_function_arguments_unit("C12"), add_method_arguments_unit("C12")]
 
 
 # the values reach the call with the type of their parameter: what Python prints for a number is read back as that number by the loader table
